@@ -525,6 +525,30 @@ def pred_c09_done(prog, ob):
     return None
 
 
+def pred_c09_order(prog, ob):
+    """within one segue of a framer, every plain auxiliary of its active frames makes its transitions before
+    any frame of the framer evaluates its own transition / conditional-auxiliary clauses"""
+    orc = ob.get("oracle", [])
+    stack = []          # [framer, own clause evaluated?]
+    i = 0
+    while i < len(orc):
+        e = orc[i]
+        if e[0] == "segue":
+            if e[3] == "begin":
+                if stack and stack[-1][1]:
+                    return ("aux-segue-after-main", "tick %d: auxiliary %s made its transitions after the frames of its "
+                            "main framer %s had already evaluated theirs in the same run" % (e[1], e[2], stack[-1][0]))
+                stack.append([e[2], False])
+            elif stack:
+                stack.pop()
+        elif e[0] in ("transit", "suspend") and stack and e[2] == stack[-1][0]:
+            stack[-1][1] = True
+            if e[0] == "suspend" and len(e) > 11:
+                i = max(i, e[11] - 1)        # the conditional auxiliary's own segue is part of the clause
+        i += 1
+    return None
+
+
 def pred_c10(prog, ob):
     """a conditional auxiliary that is not entered, whose conditions hold, which is free and may start, is
     entered by the attempt; the frames below its main frame are suspended (truthy result) only while it is
@@ -579,7 +603,8 @@ def pred_c10(prog, ob):
 
 
 PREDS = {"C04": pred_c04, "C03": pred_c03, "C05": pred_c05, "C06": pred_c06, "C09": pred_c09, "C11": pred_c11,
-         "C08": pred_c08, "C04s": pred_c04_start, "C09d": pred_c09_done, "C10": pred_c10}
+         "C08": pred_c08, "C04s": pred_c04_start, "C09d": pred_c09_done, "C10": pred_c10,
+         "C09o": pred_c09_order}
 
 
 def kernel_check(ctx, pid, runs, preds, rule, extra_assumptions=(), corpus=(), extra_checks=()):
